@@ -32,7 +32,11 @@
 //!   `disk_manager_builder`, the `with_*` setters start from `unwrap_or_default()`); no patch proposed
 //!   (needs a `DiskManagerBuilder` seeded from the existing `DiskManager`).
 //!
-//! Sensitivity probes: PROBES-PLACEHOLDER
+//! Sensitivity probes (tools/mutrun, quick tier; patches under harness/crates/vf-tree/probes/):
+//! * p2-between-forgets-high+set-lowercases.diff, hunk 2 — `SessionContext::set_variable` lowercases
+//!   the value before `ConfigOptions::set`: c43b VIOLATION after 11 evaluations ("SET
+//!   datafusion.format.null = 'NULL'; SHOW reports "null" but the configuration's own text is "NULL"").
+//! * see c43a.rs for the `ConfigField` level probe (Display / FromStr mismatch).
 use crate::c43a::{UMBRELLA, UMBRELLA_SUBS, Val, pool, val_strategy};
 use datafusion::arrow::array::{Array, StringArray};
 use datafusion::common::config::ConfigOptions;
@@ -69,6 +73,9 @@ const TEMP_DIR_KEY: &str = "datafusion.runtime.temp_directory";
 /// `SessionStateBuilder::new_from_existing` (used by every runtime `SET`) documents that it turns
 /// this start-up-only option off once the default catalog exists: not compared after a runtime SET
 const STARTUP_KEY: &str = "datafusion.catalog.create_default_catalog_and_schema";
+
+/// the three options held by the `DiskManager`
+const DISK: [&str; 3] = ["datafusion.runtime.temp_directory", "datafusion.runtime.max_temp_directory_size", "datafusion.runtime.max_spill_merge_fan_in"];
 
 /// `SHOW` needs it: never switched off by the harness
 #[allow(dead_code)]
@@ -268,10 +275,11 @@ fn runtime_sweep(s: &Sess) -> Eval {
         }
         let after = nrm(sqltry!(s.show("ALL"), "SHOW ALL"), true);
         if strip(&after, "", true) != strip(&before, "", true) {
-            return Eval::Finding(Finding {
-                class: format!("reported-text-not-idempotent:{k}"),
-                message: format!("SET {k} = {} (the reported text) changed SHOW ALL: {}", quote(t), diff(&strip(&before, "", true), &strip(&after, "", true))),
-            });
+            let (b, a) = (strip(&before, "", true), strip(&after, "", true));
+            let changed: Vec<&String> = b.keys().chain(a.keys()).filter(|x| b.get(*x) != a.get(*x)).collect();
+            // same normalised class as in `evaluate`: the disk-manager options reset one another
+            let class = if DISK.contains(&k) && changed.iter().all(|x| DISK.contains(&x.as_str())) { "disk-option-set-resets-other-disk-options".to_string() } else { format!("reported-text-not-idempotent:{k}") };
+            return Eval::Finding(Finding { class, message: format!("SET {k} = {} (the reported text) changed SHOW ALL: {}", quote(t), diff(&b, &a)) });
         }
         before = after;
     }
@@ -391,7 +399,6 @@ pub fn evaluate(case: &Case, with_runtime_sweep: bool) -> Eval {
                 let others = |e: &Entries| -> Entries { e.iter().filter(|(k, _)| **k != key).map(|(k, v)| (k.clone(), v.clone())).collect() };
                 if others(&after) != others(&before) {
                     // normalised class: the three disk-manager options reset one another
-                    const DISK: [&str; 3] = ["datafusion.runtime.temp_directory", "datafusion.runtime.max_temp_directory_size", "datafusion.runtime.max_spill_merge_fan_in"];
                     let (b, a) = (others(&before), others(&after));
                     let changed: Vec<&String> = b.keys().chain(a.keys()).filter(|k| b.get(*k) != a.get(*k)).collect();
                     let class = if DISK.contains(&key.as_str()) && changed.iter().all(|k| DISK.contains(&k.as_str())) { "disk-option-set-resets-other-disk-options" } else { "runtime-set-changes-other-options" };
